@@ -90,3 +90,33 @@ class mixer:
             if got != exp[:len(got)] or len(got) < 40:
                 return "keep: got %r, expected prefix of %r" % ([str(v) for v in got], [str(v) for v in exp[:len(got)]])
         return None
+
+
+class control:
+    """ControlStream: an endless stream of its current value; assigning .value changes what later samples are"""
+    @staticmethod
+    def candidates(hints):
+        import itertools
+        for sched in itertools.product([None, 1, 2], repeat=4):
+            yield {"initial": 7, "schedule": list(sched)}
+        yield {"initial": None, "schedule": [None, 0, None]}
+
+    @staticmethod
+    def check(inp):
+        from audiolazy import ControlStream
+        cs = ControlStream(inp["initial"])
+        cur, exp, got = inp["initial"], [], []
+        for step in inp["schedule"]:
+            if step is not None:
+                cs.value = cur = (cur, step)
+            for _ in range(2):
+                r = outcome(lambda: next(iter(cs)))
+                if r[0] != "ok":
+                    return "ControlStream raised %s after %d samples; it is endless" % (r[1], len(got))
+                got.append(r[1])
+                exp.append(cur)
+            if cs.value != cur:
+                return "ControlStream.value reads %r after it was set to %r" % (cs.value, cur)
+        if got != exp:
+            return "ControlStream samples %r; the value current at each sample was %r" % (got, exp)
+        return None
